@@ -2,7 +2,7 @@
 # builds /verif/seeded/<id>/ from the sub-agents' deliverables and my confirmation results
 import json,os,re,shutil,sys,glob
 res={}
-for f in glob.glob('/tmp/mut/results*.txt'):
+for f in sorted(glob.glob('/tmp/mut/results*.txt')):
     for l in open(f):
         m=re.match(r'RESULT (/tmp/mut/out/(C\d+)/(m\d)) build=(\w+) suite=(\w+) demo_with=(\w+) demo_without=(\w+) \| (.*)',l)
         if not m: continue
